@@ -419,6 +419,57 @@ def shard_abort(shard):
     return part
 
 
+def _sparse_colourings(n):
+    """Text colourings in which only a FEW positions carry a colour the pattern uses ('a'/'b'),
+    all others 'c': every subset of size 1..4 of the probe positions {0,1,2,3,6,7,8,9,n-2,n-1}
+    (plus 31,32,33 where they exist) x every a/b assignment for sizes <= 3, alternating for 4; and
+    the two 'dense' colourings (all a / alternating a,b)."""
+    probe = sorted({q for q in (0, 1, 2, 3, 6, 7, 8, 9, n - 2, n - 1, 31, 32, 33) if 0 <= q < n})
+    for r in (1, 2, 3, 4):
+        for pos in itertools.combinations(probe, r):
+            if r == 4 and not (pos[-1] >= 8):
+                continue
+            assigns = itertools.product("ab", repeat=r) if r <= 3 else [tuple("abab"), tuple("baba")]
+            for asg in assigns:
+                col = ["c"] * n
+                for q, c in zip(pos, asg):
+                    col[q] = c
+                yield tuple(col)
+    yield tuple("a" * n)
+    yield tuple("ab"[i % 2] for i in range(n))
+
+
+def shard_scale_colours(shard):
+    n, name = shard
+    Perm = _P()
+    part = Partial()
+    t = scale_texts(n)[name]
+    T = Perm(t)
+    patts = [((0,), ("a",)), ((0, 1), ("a", "b")), ((1, 0), ("a", "b")), ((0, 1), ("a", "a")),
+             ((1, 0), ("b", "b")), ((0, 2, 1), ("a", "b", "a")), ((1, 0, 2), ("a", "a", "b"))]
+    occ = {p: R.occurrences(p, t) if n <= 34 else None for p, _ in patts}
+    for tc in _sparse_colourings(n):
+        usable = [i for i in range(n) if tc[i] != "c"]
+        for p, pc in patts:
+            if len(usable) <= 12:
+                ref = [idx for idx in itertools.combinations(usable, len(p))
+                       if all(tc[i] == pc[j] for j, i in enumerate(idx))
+                       and R.std([t[i] for i in idx]) == p]
+            elif occ[p] is not None:
+                ref = [idx for idx in occ[p] if all(tc[i] == pc[j] for j, i in enumerate(idx))]
+            else:
+                continue
+            try:
+                got = list(Perm(p).occurrences_in(T, pc, tc))
+            except Exception as exc:  # noqa
+                got = repr(exc)
+            if got != ref:
+                part.violation("colour", {"patt": p, "text": t, "pc": pc, "tc": tc},
+                               {"expected": ref, "got": got})
+            part.add(1, 1 if ref else 0)
+    return part
+
+
 def chunks(n, per):
     import math
     total = math.factorial(n)
@@ -647,6 +698,13 @@ def run(ctx, only=None):
                                "patterns": "all of length <= 3 (sizes <= 34) / <= 2 (larger), the text "
                                            "minus one point (every position for sizes <= 40, else 9 "
                                            "positions), the text minus two points (sizes <= 12)"}
+        csizes = [n for n in sizes if n <= 34] + [257]
+        cshapes = ("identity", "reverse", "rotate1", "layered3", "skew-halves") if quick else None
+        ctx.pmap(shard_scale_colours, [(n, name) for n in csizes for name in scale_texts(n)
+                                       if cshapes is None or name in cshapes or name.endswith("mod n")])
+        ctx.bounds["scale"]["colourings"] = ("texts of sizes %r: only 1..4 probe positions (0-3, 6-9, "
+                                             "n-2, n-1, 31-33) carry a colour the pattern uses, every "
+                                             "a/b assignment; 7 coloured patterns of length <= 3" % csizes)
         ctx.section("scale", evaluations=ctx.evals - e0)
     if want("abort"):
         e0 = ctx.evals
